@@ -104,9 +104,20 @@ def run_case(case):
             if tainted():
                 stats["refusals"]["skipped_after_timeout"] = stats["refusals"].get("skipped_after_timeout", 0) + 1
                 continue
+            gsym = sympify(goal)
+            fixed = getattr(program, "fixed_constants", {})
+            if gsym.free_symbols & set(fixed.keys()):
+                # loop constants with a single value are replaced by it (as cli.common.get_moment does): the recurrences are
+                # those of the remaining monomial
+                rest = polar.sym_to_poly(gsym.subs(fixed))
+                monos = [mn for mn in poly_monomials(rest, irvars) if mn != ONE]
+                if len(monos) != 1:
+                    stats["constant_goals"] = stats.get("constant_goals", 0) + 1
+                    continue
+                gsym = sympify(monos[0].to_text())
             try:
                 with cpu_limit(20 if not THOROUGH else 60):
-                    recs = rb.get_recurrences(sympify(goal))
+                    recs = rb.get_recurrences(gsym)
             except CpuTimeout:
                 stats["refusals"]["timeout@recurrences"] = stats["refusals"].get("timeout@recurrences", 0) + 1
                 continue
